@@ -114,8 +114,12 @@ def check_proof(name, S, arg, order, cfg, out, tier, rng, label=''):
     ms = list(range(1, n + 2)) if n <= 14 else sorted({1, 2, n // 2, n - 1, n, n + 1, n + 5} | set(rng.sample(range(1, n + 1), 5)))
     for m in ms + [None, 0, -3, 10 ** 6]:
         driver = rng.choice(['build', 'step'])
+        # half of the runs also carry a time limit far beyond reach: both limits on one tableau must each keep working
+        both = dict(build_timeout=10 ** 9) if rng.random() < 0.5 else {}
+        if both:
+            out.count('step_limit_runs_with_idle_time_limit')
         try:
-            t = make(name, arg, order, max_steps=m, **opts)
+            t = make(name, arg, order, max_steps=m, **both, **opts)
             drive(t, driver)
         except Exception as e:
             viol('step-limit-run-raises', f'max_steps={m}: {type(e).__name__}: {e}', max_steps=m, error=type(e).__name__)
@@ -194,8 +198,10 @@ def check_proof(name, S, arg, order, cfg, out, tier, rng, label=''):
         cut = next((j for j in range(len(E)) if E[j] > T), None)    # step j+1 must raise
         driver = rng.choice(['build', 'step'])
 
+        both_t = dict(max_steps=10 ** 6) if rng.random() < 0.5 else {}
+
         def limited(clk):
-            t = make(name, arg, order, build_timeout=T, **opts)
+            t = make(name, arg, order, build_timeout=T, **both_t, **opts)
             raised = None
             try:
                 drive(t, driver)
